@@ -157,8 +157,12 @@ def spaces(tier, seed):
                         describe='compute_cyclepoints on every signal in {-1,0,1}^9 (9-tap filter): rate and scale covariance'),
            ProductSpace('W(5,5)xdefault', S.word_dims(al, 5) + [[OPTS_Q[0]]], evaluate,
                         bounds={'letters': al, 'scales': SCALES, 'rates': RATES}),
-           ProductSpace('W(4,5)xopts', S.word_dims(S.alphabet(4), 5) + [OPTS_Q[1:]], evaluate,
+           ProductSpace('W(4,5)xopts', S.word_dims(S.alphabet(4), 5) + [OPTS_Q[1:5] if tier == 'quick' else OPTS_Q[1:]], evaluate,
                         bounds={'letters': S.alphabet(4), 'scales': SCALES, 'rates': RATES})]
+    if tier == 'quick':
+        out.append(ProductSpace('W(3,5)xopts', S.word_dims(S.alphabet(3), 5) + [[OPTS_Q[5], OPTS_Q[8], OPTS_Q[9]]], evaluate,
+                                bounds={'letters': S.alphabet(3), 'scales': SCALES, 'rates': RATES},
+                                describe='boundary / band deviations on the 3-letter alphabet'))
     from bcmc.explore import ListSpace
     out.append(ListSpace('long-recordings', S.long_cases(['@B', '@E'], [(), ('amp',)]) + S.long_cases(['@C'], [('trough',)]), evaluate,
                          describe='long real-valued recordings (fs 1000 band 13-30, fs 500 band 8-12, fs 1017.25) x scale and rate factors'))
